@@ -757,14 +757,29 @@ def _dict_sym_lookup(I, d, key):
     I.raise_py(KeyError, "symbolic key")
 
 
+def note_list_mutation(I, lst):
+    """In-place mutation of a list that is a column/relationship of a stored object is a store
+    effect (pending change of an attached object)."""
+    own = I.path.ghost.get('owned_lists', {}).get(id(lst))
+    if own is not None:
+        o, f = own
+        I.path.event('db.mutate', id(o), f, None, None, bool(o.meta.get('attached')), o.cls.__name__)
+
+
 def setitem(I, obj, idx, value):
     obj = I.resolve_opt(obj)
     if isinstance(obj, dict):
         obj[I.hashable(idx)] = value
         return
     if isinstance(obj, list):
+        note_list_mutation(I, obj)
         if isinstance(idx, SInt):
-            raise OutOfFragment("list store at symbolic index")
+            n = len(obj)
+            for k in range(-n, n):
+                if I.path.branch(idx.t == k):
+                    obj[k] = value
+                    return
+            I.raise_py(IndexError, "list assignment index out of range")
         try:
             obj[idx] = value
         except IndexError as e:
@@ -777,6 +792,8 @@ def setitem(I, obj, idx, value):
 
 def delitem(I, obj, idx):
     obj = I.resolve_opt(obj)
+    if isinstance(obj, list):
+        note_list_mutation(I, obj)
     if isinstance(obj, (dict, list)) and not is_symbolic(idx):
         try:
             del obj[idx]
